@@ -105,6 +105,19 @@ def configs(tier):
                         if tmax == 'sym' and not sir:
                             c['tmax_within'] = 2.5     # a symbolic horizon of at most 3 steps (SIS never dies out on its own)
                         out.append(c)
+    # weights that may be zero (a node that never recovers, an edge that never transmits): symbolic weights >= 0
+    for entry in ('Gillespie_SIR', 'fast_SIR', 'Gillespie_SIS', 'fast_SIS'):
+        for g, I0 in (('K2', [0]), ('P3', [1])):
+            for w in ('node', 'edge', 'both'):
+                if g == 'P3' and w == 'both':
+                    continue
+                c = dict(entry=entry, graph=g, I0=I0, R0=[], full=False, weights=w, zero_weight=True, tmax='sym', wstub='abstract',
+                         tags=[g, 'zero-weight:' + w])
+                if entry == 'Gillespie_SIS':
+                    c.update(max_expo=e, truncate=False)
+                elif entry == 'fast_SIS':
+                    c.update(max_expo=2 * e - 2)
+                out.append(c)
     # graphs with a self-loop: a node is not its own contact (the simulators skip such edges explicitly)
     for entry in ('Gillespie_SIR', 'fast_SIR', 'fast_nonMarkov_SIR', 'Gillespie_SIS', 'fast_SIS', 'fast_nonMarkov_SIS', 'discrete_SIR', 'basic_discrete_SIS'):
         for I0 in ([0], [1]):
